@@ -34,18 +34,21 @@ Fixpoint tk_starts (p l : list tk) : bool :=
    and is left alone *)
 Definition next_is_lt (l : list tk) : bool :=
   match l with KP p :: _ => str_eqb p (L "<") | _ => false end.
-Fixpoint replace_all (guard : bool) (pat rep : list tk) (l : list tk) (fuel : nat) : list tk :=
+Definition is_colon (t : tk) : bool := match t with KP p => str_eqb p (L ":") | _ => false end.
+(* after_colon: the previous token is a colon, i.e. the occurrence is the tail of a qualified path
+   (PathBuf in std::path::PathBuf), which is a different printed name and is left alone *)
+Fixpoint replace_all (guard : bool) (pat rep : list tk) (l : list tk) (after_colon : bool) (fuel : nat) : list tk :=
   match fuel with 0 => l | S f =>
     match l with
     | [] => []
     | x :: l' =>
-        if tk_starts pat l && negb (guard && next_is_lt (skipn (List.length pat) l))
-        then rep ++ replace_all guard pat rep (skipn (List.length pat) l) f
-        else x :: replace_all guard pat rep l' f
+        if tk_starts pat l && negb (after_colon || (guard && next_is_lt (skipn (List.length pat) l)))
+        then rep ++ replace_all guard pat rep (skipn (List.length pat) l) false f
+        else x :: replace_all guard pat rep l' (is_colon x) f
     end
   end.
 Definition replace_tokens (guard : bool) (pat rep l : list tk) : list tk :=
-  match pat with [] => l | _ => replace_all guard pat rep l (S (List.length l)) end.
+  match pat with [] => l | _ => replace_all guard pat rep l false (S (List.length l)) end.
 
 (* names occurring in a Rust type, as type_to_string prints them (every path, with its arguments) *)
 Fixpoint names_of (t : rty) : list str :=
@@ -67,9 +70,18 @@ Definition subst_one (is_type : bool) (n target : str) (toks : list tk) : list t
 Definition subst_tokens (is_type : bool) (m : mapping) (toks : list tk) : list tk :=
   fold_left (fun acc kv => subst_one is_type (fst kv) (snd kv) acc) m toks.
 
+(* an identifier N or NSchema that is not the tail of a qualified path *)
+Fixpoint occurs_bare (hd : str) (toks : list tk) (after_colon : bool) : bool :=
+  match toks with
+  | [] => false
+  | x :: r =>
+      (negb after_colon &&
+       match x with KId y => str_eqb y hd || str_eqb y (hd ++ L "Schema")%list | _ => false end)
+      || occurs_bare hd r (is_colon x)
+  end.
 Definition refers_to (n : str) (toks : list tk) : bool :=
   match lex_module n with
-  | KId hd :: _ => existsb (fun t => match t with KId x => str_eqb x hd || str_eqb x (hd ++ L "Schema")%list | _ => false end) toks
+  | KId hd :: _ => occurs_bare hd toks false
   | _ => false
   end.
 
